@@ -9,6 +9,8 @@
 //   unchanged, no element object and no block more or less; Shrink never throws; C10 - Insert* / Remove* that threw left
 //   count <= capacity, every slot below count a live or moved-from object, live objects == sum of counts, outstanding
 //   blocks == segments and pointer-array blocks the containers own.
+//   Objects are also created by CreateCap / CreateCrt (model ops newcap / crt), every round starts with a sweep of CreateCrt over
+//   all its fault positions.
 #include "momo/SegmentedArray.h"
 #include "c04_arrfault.h"
 
@@ -55,6 +57,14 @@ public:
 			s.comment(fmt("%s round %u", cfgName.c_str(), r));
 			history.clear();
 			plain("new 0", [&] { obj[0].reset(new C()); }, 0);
+			// CreateCrt with every fault position: growth of the pointer array, each segment, each creator call, none (slot 2 is free
+			// at the start of a round)
+			for (long k = 0; k <= 40 && !broken; ++k) {
+				createCrt(2, k);
+				if (!obj[2]) continue;
+				destroy(2);
+				break;
+			}
 			unsigned lim = (r % 3 == 2) ? b.maxSize : std::min<unsigned>(b.maxSize, 12);
 			for (unsigned k = 0; k < b.opsPerRound && !broken; ++k) oneOp(lim);
 			for (int o = 0; o < slotCount; ++o) if (obj[o]) destroy(o);
@@ -141,8 +151,9 @@ private:
 	}
 
 	// mayThrow = false: the operation is noexcept (Shrink): an exception is a violation
-	template<typename F> void faulty(const std::string& name, const std::string& lineNoK, int o, bool strong, bool ctor, F f, const std::string& tail = "") {
+	template<typename F> void faulty(const std::string& name, const std::string& lineNoK, int o, bool strong, bool ctor, F f, const std::string& tail = "", long forceK = -2) {
 		long k; std::string ks = pickK(name, k);
+		if (forceK >= -1) { k = forceK; ks = k < 0 ? std::string("-") : std::to_string(k); }
 		std::string line = lineNoK + " " + ks + tail;
 		std::string before = ctor ? std::string() : state(o);
 		std::string blocksBefore = blocks(); long liveBefore = liveObjs();
@@ -311,7 +322,37 @@ private:
 			if (hasInplace) { mw().oracle = rng.chance(1, 2); plain(fmt("oracle %d %d", src, mw().oracle ? 1 : 0), [] {}, src); }
 			faulty("cctor", fmt("cctor %d %d %d", o, src, shr ? 1 : 0), o, true, true, [&] { if (shr) obj[o].reset(new C(*obj[src])); else obj[o].reset(new C(*obj[src], false)); });
 		}
+		else if (rng.chance(1, 2)) createCrt(o, -2);
 		else plain(fmt("new %d", o), [&] { obj[o].reset(new C()); }, o);
+	}
+	// CreateCap(capacity) / CreateCrt(count, itemMultiCreator) with the k-th fallible step failing (model ops newcap / crt).
+	// Property level: a call that threw left no element object and no block (faulty, `ctor`); CreateCap returned an empty object
+	// with at least the capacity asked for; CreateCrt made exactly `count` creator calls, the i-th one for element i, and the
+	// elements are what the calls made
+	void createCrt(int o, long forceK) {
+		if (forceK == -2 && rng.chance(1, 3)) {
+			size_t n = (size_t)rng.below(30);
+			faulty("newcap", fmt("newcap %d %zu", o, n), o, true, true, [&] { obj[o].reset(new C(C::CreateCap(n))); });
+			if (obj[o] && (obj[o]->GetCount() != 0 || obj[o]->GetCapacity() < n)) fail("C05 CreateCap", fmt("count %zu capacity %zu for CreateCap(%zu)", obj[o]->GetCount(), obj[o]->GetCapacity(), n));
+			return;
+		}
+		size_t n = (size_t)rng.below(10);
+		std::vector<T> vals; std::string ids;
+		vals.reserve(n);
+		for (size_t i = 0; i < n; ++i) { uint32_t id = fresh(); vals.push_back(K::make(id)); ids += fmt(" %u", id); }
+		std::vector<T*> ptrs; size_t calls = 0;
+		auto creator = [&vals, &ptrs, &calls](T* p) { ptrs.push_back(p); size_t i = calls++; ::new(static_cast<void*>(p)) T(static_cast<const T&>(vals.at(i))); };
+		ext = K::lo ? (long)n : 0;
+		faulty("crt", fmt("crt %d", o), o, true, true, [&] { obj[o].reset(new C(C::CreateCrt(n, creator))); }, ids, forceK);
+		ext = 0;
+		if (obj[o]) {
+			const C& a = *obj[o];
+			bool ok = calls == n && a.GetCount() == n;
+			for (size_t i = 0; ok && i < n; ++i) ok = a[i].id == vals[i].id && ptrs[i] == &a[i];
+			if (!ok) fail("C05 CreateCrt", fmt("%zu creator calls for count %zu, contents {%s}, values [%s]", calls, n, state(o).c_str(), ids.c_str()));
+		}
+		else if (calls > n) fail("C05 CreateCrt", fmt("%zu creator calls for count %zu", calls, n));
+		c.stats.count(obj[o] ? "crt.completed" : (calls > 0 ? "crt.creator_threw" : "crt.allocation_failed"));
 	}
 };
 
@@ -349,6 +390,11 @@ int main(int argc, char** argv)
 #if SF_PART == 0 || SF_PART == 2
 	runSeg<Seg<fCnst, 1, ElC<false>, MM00>>(c, rng, "cnst1_co", b);
 	runSeg<Seg<fSqrt, 0, ElC<true>, MM11>>(c, rng, "sqrt0_co_ta_both", b);
+#endif
+#if SF_PART == 0 || SF_PART == 3
+	// "not nothrow-movable but nothrow-swappable" items: for SegmentedArray the category copy-only with throwing assignment
+	runSeg<Seg<fSqrt, 1, ElS, MM00>>(c, rng, "sqrt1_sw", b);
+	runSeg<Seg<fCnst, 2, ElS, MM10>>(c, rng, "cnst2_sw_realloc", b);
 #endif
 	return c.finish();
 }
